@@ -184,7 +184,7 @@ func (r *Report) Finish(e *Engine, known []KnownFinding, evidenceDir string, see
 		all = append(all, map[string]string{"key": o.Key(), "status": o.Status, "pos": o.Pos})
 	}
 	cov := map[string]any{
-		"explanation": "Static analysis of /repo's current source (type-checked packages, go/ssa form). Each obligation is a structural necessary condition of the property, decided for all paths of the functions concerned by a path-sensitive label dataflow (branch conditions with polarity, passed effects, lock sets), call-site enumeration over resolved callees, AST/type table comparison, or value provenance. Nothing under /repo is executed. A discharged obligation proves its clause only; the behavioural core named in MANIFEST level_note is not decided.",
+		"explanation":         "Static analysis of /repo's current source (type-checked packages, go/ssa form). Each obligation is a structural necessary condition of the property, decided for all paths of the functions concerned by a path-sensitive label dataflow (branch conditions with polarity, passed effects, lock sets), call-site enumeration over resolved callees, AST/type table comparison, or value provenance. Nothing under /repo is executed. A discharged obligation proves its clause only; the behavioural core named in MANIFEST level_note is not decided.",
 		"obligations":         len(r.Obs),
 		"discharged":          discharged,
 		"known_findings":      len(knownHit),
